@@ -8,7 +8,9 @@
 
   All statements are about **arbitrary** states: any contents of any tape (well formed or not),
   any records (also stale ones, whose tape was cleared without resetting them) — i.e. any history
-  of creating, computing, differentiating, clearing and resetting.
+  of creating, computing, differentiating, clearing and resetting.  `R` is any commutative ring
+  with a `Div` instance (no property of `/` is used, except in `cycle_true_derivatives`, which
+  takes C04's `DivOK` hypothesis).
 -/
 import EasyMl.Lemmas.TapeWorld
 import EasyMl.Props.C04
@@ -18,7 +20,7 @@ open EasyMl EasyMl.Spec
 
 set_option linter.unusedSectionVars false
 
-variable {R : Type} [Field R] [RealFns R]
+variable {R : Type} [CommRing R] [Div R] [RealFns R]
 
 /-- **Each new variable or result occupies the next unused tape position.**
     (a) `Record::variable` and `reset` of a variable put the record at the current length of the
@@ -132,7 +134,8 @@ example : ∀ r ∈ ([⟨3, some 1, 7⟩, ⟨5, some 1, 2⟩] : List (Rec R)), r
 theorem cycle_true_derivatives (w : World R) (t : Nat) (rs : List (Rec R))
     (hrs : ∀ r ∈ rs, r.history = some t) (p : Prog R) (env : Nat → R)
     (henv : ∀ j (hj : j < rs.length), env j = (rs[j]).number)
-    (hp : Prog.WellScoped ((rs.map fun _ => (Instr.var : Instr R)) ++ p)) :
+    (hp : Prog.WellScoped ((rs.map fun _ => (Instr.var : Instr R)) ++ p))
+    (hd : DivOK ((rs.map fun _ => (Instr.var : Instr R)) ++ p)) :
     let live := resetAll rs (w.clear t)
     let q : Prog R := (rs.map fun _ => (Instr.var : Instr R)) ++ p
     Prog.execFrom t env p live.2 live.1 = Prog.exec t env q (w.clear t) ∧
@@ -155,10 +158,12 @@ theorem cycle_true_derivatives (w : World R) (t : Nat) (rs : List (Rec R))
     rw [this]
   refine ⟨hEq, ?_⟩
   rw [hEq]
-  exact C04.reverse_eq_grad q hp t env (w.clear t) (by simp [World.clear]; exact Tape.WF_nil)
+  exact C04.reverse_eq_grad q hp hd t env (w.clear t) (by simp [World.clear]; exact Tape.WF_nil)
 
 example : Prog.WellScoped (([⟨3, some 1, 7⟩, ⟨5, some 1, 2⟩] : List (Rec R)).map
     (fun _ => (Instr.var : Instr R)) ++ [.arith .mul 0 1, .real .sin 2]) := rfl
+example : DivOK (([⟨3, some 1, 7⟩, ⟨5, some 1, 2⟩] : List (Rec R)).map
+    (fun _ => (Instr.var : Instr R)) ++ [.arith .mul 0 1, .real .sin 2]) := Or.inl rfl
 
 /-- **Every binary operation between variables of two different tapes is rejected with a panic
     and appends nothing.**  For `+ − × ÷`, `pow`, `Record::binary` (as model operators and as
